@@ -196,3 +196,55 @@ class Evaluate(Contract):
                 ("forward_pass_runs_in_evaluation_mode", BoolVal(one and fw[0][0] == "eval")),
                 ("forward_pass_does_not_track_gradients", BoolVal(one and bool(fw[0][1]))),
                 ("returns_the_output_of_that_pass", BoolVal(one and isinstance(value, Abstract) and value.tag == "numpy_output" and value.of.k == 0))]
+
+
+class Shuffle(Contract):
+    """shuffle(X, Y, A) of the engines: the three returned tensors are the SAME row permutation of X, Y and A (rows stay paired), shapes kept.
+    torch: one permutation `idx` indexes all three; base engine (numpy / tensorflow): one sklearn.utils.shuffle call over the three arrays."""
+
+    def __init__(self, engine):
+        self.engine = engine
+        self.source = "fairlearn/adversarial/_pytorch_engine.py" if engine == "torch" else "fairlearn/adversarial/_backend_engine.py"
+        self.function = "PytorchEngine.shuffle" if engine == "torch" else "BackendEngine.shuffle"
+
+    def params(self, eng, st):
+        self.t = {k: T("rows", name=k, perm=None) for k in ("X", "Y", "A")}
+        st.env.update(self.t)
+        st.env["self"] = Obj("Engine", {"base": Obj("base", {"random_state_": T("rs")})})
+
+    def on_name(self, eng, st, name):
+        if name == "torch":
+            return Abstract("module", name="torch", alias="torch")
+        return NotImplemented
+
+    def on_call(self, eng, st, node, name, recv, args, kwargs):
+        if name == "torch.randperm":
+            ok = isinstance(args[0], Abstract) and args[0].tag == "n_rows_of" and args[0].of == "X"
+            eng.oblige(st, "permutation_of_the_row_count", BoolVal(bool(ok)), "wiring", node)
+            return T("perm")
+        if name in ("size",) and isinstance(recv, Abstract) and recv.tag == "rows":
+            return T("size_of", of=recv.name, perm=recv.perm)
+        if name == "view" and isinstance(recv, Abstract) and recv.tag == "rows" and args and isinstance(args[0], Abstract) and args[0].tag == "size_of" and args[0].of == recv.name:
+            return recv          # same shape as before
+        if name in ("shuffle", "sklearn.utils.shuffle") and len(args) == 3 and all(isinstance(a, Abstract) and a.tag == "rows" for a in args):
+            p = T("perm")
+            return tuple(T("rows", name=a.name, perm=p) for a in args)
+        return NotImplemented
+
+    def on_attr(self, eng, st, node, base, attr):
+        if isinstance(base, Abstract) and base.tag == "rows" and attr == "shape":
+            return (T("n_rows_of", of=base.name), T("width_of", of=base.name))
+        return NotImplemented
+
+    def on_subscript(self, eng, st, node, base, index):
+        if isinstance(base, Abstract) and base.tag == "rows" and isinstance(index, Abstract) and index.tag == "perm":
+            return T("rows", name=base.name, perm=index)
+        return NotImplemented
+
+    def post(self, eng, st, status, value):
+        ok = status == "return" and isinstance(value, tuple) and len(value) == 3 and all(isinstance(v, Abstract) and v.tag == "rows" for v in value)
+        if not ok:
+            return [("returns_three_row_sets", BoolVal(False))]
+        return [("returns_X_Y_A_in_this_order", BoolVal([v.name for v in value] == ["X", "Y", "A"])),
+                ("all_three_are_permuted", BoolVal(all(v.perm is not None for v in value))),
+                ("the_same_permutation_is_applied_to_X_Y_and_A", BoolVal(value[0].perm is not None and value[0].perm is value[1].perm and value[1].perm is value[2].perm))]
